@@ -22,3 +22,63 @@ Section Root.
   Definition load_candidates (c : contents) (probe : list string) : res (list (list value)) :=
     map_res (root_read c) probe.
 End Root.
+
+(* ---- a concrete path-level model: what opening a path through a root handle does ----
+   Paths are lists of components (absolute, lexically clean). The file system is a table from paths to nodes; a link
+   carries its target as an absolute component path (the harness joins a relative target with the link's directory and
+   cleans it lexically) and whether it was SPELLED absolute (Go's os.Root refuses those outright).
+   [walk] follows the remaining components from [cur]; every lookup it makes is under [root]; a link whose target is not
+   under root (component-wise: /x/root2 is NOT under /x/root) is an escape. *)
+Definition cpath := list string.
+Inductive tnode :=
+| TDir
+| TFile (content : res value)
+| TLink (spelled_abs : bool) (target : cpath).
+Definition tfs := list (cpath * tnode).
+
+Fixpoint cpath_eqb (a b : cpath) : bool :=
+  match a, b with
+  | [], [] => true
+  | x :: a', y :: b' => String.eqb x y && cpath_eqb a' b'
+  | _, _ => false
+  end.
+
+Fixpoint tfs_lookup (fs : tfs) (p : cpath) : option tnode :=
+  match fs with [] => None | (q, n) :: r => if cpath_eqb q p then Some n else tfs_lookup r p end.
+
+Fixpoint is_prefix (r p : cpath) : bool :=
+  match r, p with
+  | [], _ => true
+  | x :: r', y :: p' => String.eqb x y && is_prefix r' p'
+  | _ :: _, [] => false
+  end.
+
+Fixpoint walk (fuel : nat) (fs : tfs) (root cur : cpath) (rest : list string) : res value :=
+  match fuel with
+  | 0 => Err ECircular                                  (* too many levels of symbolic links *)
+  | S f =>
+      match rest with
+      | [] =>
+          match tfs_lookup fs cur with
+          | Some (TFile d) => d
+          | Some TDir => Err EInvalidType                (* is a directory *)
+          | Some (TLink _ _) => Err EOther               (* not reached: links are followed when stepped onto *)
+          | None => Err EMissingFile
+          end
+      | c :: r =>
+          let next := cur ++ [c] in
+          match tfs_lookup fs next with
+          | None => Err EMissingFile
+          | Some TDir => walk f fs root next r
+          | Some (TFile d) => match r with [] => d | _ => Err EInvalidType end
+          | Some (TLink spelled_abs t) =>
+              if spelled_abs then Err EOther               (* os.Root refuses absolute link targets *)
+              else if is_prefix root t then walk f fs root root (skipn (List.length root) t ++ r)
+              else Err EOther                              (* the link leaves the root *)
+          end
+      end
+  end.
+
+(* Parser.loadFile under a root: Rel(rootPath, Abs(path)) must not start with ".." *)
+Definition root_open (fuel : nat) (fs : tfs) (root p : cpath) : res value :=
+  if is_prefix root p then walk fuel fs root root (skipn (List.length root) p) else Err EOther.
